@@ -140,9 +140,13 @@ class _Run:
             vtype = subject
         if parts[-1] in ("eq", "ne", "hash", "lookup") and parts[0] != "touch":
             fam = parts[-1]        # == / hash itself raises: one fingerprint whatever transport brought the value
+        # the site names the defect, unless it is shared machinery (value equality, cached_method, the
+        # encoder): then the class of the value is what tells one defect from another
+        generic = any(g in site for g in ("value/value_equality_attr.py", "cirq/_compat.py",
+                                          "protocols/json_serialization.py", "outside-the-tree"))
         v = Violation(cls, f"{what} on node {node.idx} (PYTHONHASHSEED={node.seed}): {op} raised "
                       f"{f['exc_type']}: {f['exc_msg']}{hist} at {site}" + (f"; value of type {vtype}" if vtype else ""),
-                      fingerprint=f"{cls}:{fam}:{f['exc_type']}@{site}" + (f":{vtype}" if vtype else ""))
+                      fingerprint=f"{cls}:{fam}:{f['exc_type']}@{site}" + (f":{vtype}" if (vtype and generic) else ""))
         v.traceback_text = f.get("tb")
         raise v
 
@@ -667,8 +671,9 @@ class C11(Check):
                  "interpreter processes with different PYTHONHASHSEED; injected node restarts; oracles at every "
                  "import / copy / report / corpus read")
     rule = ("one run = one tape-decided history (2-4 interpreter processes with distinct hash seeds, 10-60 "
-            "operations: build, touch caches, copy, export via JSON/gzip/pickle 2-5/repr, import on any node, "
-            "report, qid sort, corpus read, drop, real restart); non-trivial = at least one payload was imported "
+            "operations: build -- from a generated recipe, a stored example, or a stored example whose literals were "
+            "mutated --, touch caches, copy, derive through a public method, export via JSON/gzip/pickle 2-5/repr, "
+            "import on any node, report, qid sort, corpus read, drop, real restart); non-trivial = at least one payload was imported "
             "by a process with a different PYTHONHASHSEED than the exporting one; distinct = distinct digest of "
             "the decoded decision sequence (configuration, every operation with its node, slot, transport, "
             "value label and source)")
@@ -695,6 +700,16 @@ class C11(Check):
         "touched, is a violation",
         "a printed representation that does not evaluate under the globals of the repository's own json test "
         "is not held against the class unless the representation of a freshly built equal value does evaluate",
+        "a stored example with mutated literals counts as a value when (i) every constructor accepts it within 4 s of "
+        "CPU time, (ii) it has the classes of the stored example in the same places, (iii) it compares equal, without "
+        "raising, to a shallow copy of itself, and (iv) two constructions from the same text are == (an exception "
+        "from that == is reported, not filtered); None is only put where -- or taken from where -- the callee's "
+        "annotation says `| None`, and only ints/strs the annotation names replace a None; literals handed to "
+        "sympy / datetime / pandas / networkx constructors are not mutated (Cirq's JSON documents those as "
+        "approximations)",
+        "a derived value is compared with the same derivation of a freshly built value only when the held source "
+        "writes the same JSON document as the fresh one (a source that came through a repr hop is only promised "
+        "to be ==, and == ignores e.g. WaitGate's qid_shape)",
         "I/O faults on the JSON reader/writer are not injected (the property promises nothing about torn files)",
         "completeness of the value generators over all registered classes is best-effort; the stored examples "
         "seed it",
@@ -712,7 +727,8 @@ class C11(Check):
                        "namedqubit-in-circuitop-in-frozencircuit", "ref-entry-emitted", "gzip-path",
                        "pickle-protocol-2", "second-hop", "third-hop", "hop-back-to-origin",
                        "corpus-read-after-imports", "same-frozen-circuit-in-two-dumps",
-                       "copy-of-cache-touched-value"]
+                       "copy-of-cache-touched-value", "mutated-repr-accepted", "mutated-repr-rejected",
+                       "derive-after-hash-cached", "derive-after-hop", "export-sweep"]
 
     def setup(self) -> None:
         """Start the zygotes (one pre-imported interpreter per hash seed, shared by all workers; nodes are
